@@ -2,6 +2,7 @@
 //! the cfg(blake3_team_blake3_verif) hooks. One sub-engine per property; see /verif/DESIGN.md.
 mod c01;
 mod c09;
+mod c11;
 mod hbfs;
 mod lanes;
 mod subject;
@@ -26,6 +27,7 @@ fn main() {
             "C02" | "C10" => hbfs::replay(&v),
             "C03" => xbfs::replay(&v),
             "C09" => c09::replay(&v),
+            "C11" => c11::replay(&v),
             _ => {
                 eprintln!("no replay for {}", args.prop);
                 std::process::exit(2);
@@ -39,6 +41,7 @@ fn main() {
         "C02" | "C10" => ("core/hasher_bfs", "model_checking"),
         "C03" => ("core/xof_bfs", "model_checking"),
         "C09" => ("core/hazmat", "exploration"),
+        "C11" => ("core/adapters", "fault_enumeration"),
         _ => {
             eprintln!("vcore does not serve {}", args.prop);
             std::process::exit(2);
@@ -49,6 +52,7 @@ fn main() {
         "C01" => c01::run(&args, &mut rep),
         "C03" => xbfs::run(&args, &mut rep),
         "C09" => c09::run(&args, &mut rep),
+        "C11" => c11::run(&args, &mut rep),
         "C02" => {
             let t = args.thorough();
             let cfgs = vec![hbfs::cfg_fine("C02", t), hbfs::cfg_coarse("C02", t)];
